@@ -166,7 +166,7 @@ def get_parameters(token: Function):
     parameters = []
     if isinstance(last_token, Over):
         # special handling for window function
-        parameters = token.get_parameters()
+        parameters = list(token.get_parameters())
     for tk in last_token.tokens:
         if isinstance(tk, IdentifierList):
             # special handling when multiple parameters are grouped as IdentifierList incorrectly
